@@ -315,6 +315,15 @@ fn build_or_inconclusive(spec: &LayoutSpec, out: &mut CaseOut) -> Option<Built> 
     }
 }
 
+/// evidence: how many histories / layouts contained a member of a given total size (BSIZE + 1)
+fn count_member_sizes(m: &Model, what: &str, out: &mut CaseOut) {
+    for size in [256u64, 257, 32768, 32769, 65535, 65536] {
+        if m.blocks.iter().any(|b| b.size == size) {
+            out.count(&format!("{what}_with_member_of_{size}_bytes(BSIZE={:#06x})", size - 1), 1);
+        }
+    }
+}
+
 fn run_hist(layout: &LayoutSpec, flavor: Flavor, gzi_variant: &str, nops: usize, hseed: u64, script: &Option<Vec<SOp>>) -> CaseOut {
     let mut out = CaseOut::new();
     let Some(b) = build_or_inconclusive(layout, &mut out) else { return out };
@@ -336,6 +345,7 @@ fn run_hist(layout: &LayoutSpec, flavor: Flavor, gzi_variant: &str, nops: usize,
     out.count(&format!("histories[{}]", flavor.name()), 1);
     out.count(&format!("gzi_index_variant[{gzi_variant}]"), 1);
     out.max("max_history_operations", d.nops);
+    count_member_sizes(&b.model, "histories", &mut out);
     out.max("max_blocks_in_a_layout", b.model.blocks.len() as u64);
     out.fp = shape_fp("hist", &b.model.shape(), &format!("{}|{gzi_variant}", flavor.name()));
     absorb(&mut out, d);
@@ -438,6 +448,7 @@ fn exhaust_layout(b: &Built, dense_limit: usize, rng: &mut Rng, out: &mut CaseOu
         verify_after_seek(&mut e, q as usize);
     }
     absorb(out, e);
+    count_member_sizes(m, "exhaust_layouts", out);
     out.count("exhaust_layouts", 1);
     out.count("exhaust_targets", targets.len() as u64);
     out.fps.push(shape_fp("exhaust", &m.shape(), ""));
@@ -670,7 +681,24 @@ fn random_layout(rng: &mut Rng) -> LayoutSpec {
                 .collect();
             LayoutSpec::Built { lens, enc, eofs, class: rng.pick(layout::DISTINCT_BIG).to_string(), cseed }
         }
-        13..=15 => {
+        13 => {
+            // members at the BSIZE width boundaries mixed with small / empty ones
+            let n = rng.urange(1, 6);
+            let members = (0..n)
+                .map(|_| match rng.below(12) {
+                    0 | 1 => X,
+                    2 => Y,
+                    3 => Z,
+                    4 => Z1,
+                    5 => W,
+                    6 => *rng.pick(&[(225u32, 256u32), (226, 257), (32737, 32768), (32738, 32769)]),
+                    7 | 8 => (0, 0),
+                    _ => (rng.urange(1, 300) as u32, 0),
+                })
+                .collect();
+            LayoutSpec::Sized { members, eofs, class: rng.pick(&["dna", "text", "qualities", "two_symbols"]).to_string(), cseed: rng.below(6) + 300 }
+        }
+        14..=15 => {
             let n = rng.urange(3, 12);
             let lens = (0..n)
                 .map(|_| match rng.below(20) {
@@ -772,6 +800,47 @@ fn corpus_layouts() -> Vec<LayoutSpec> {
     v
 }
 
+/// Members at the BSIZE width boundaries (total member size = BSIZE + 1). `(len, total)`:
+/// stored payloads of total - 31 bytes hit the size exactly; a 65 536-byte payload (ISIZE 65536)
+/// gets a stored prefix + padding + deflated tail of exactly the required size.
+const X: (u32, u32) = (65505, 65536); // BSIZE 0xffff, stored
+const Y: (u32, u32) = (65504, 65535); // BSIZE 0xfffe, stored
+const Z: (u32, u32) = (65536, 65536); // ISIZE 65536 and BSIZE 0xffff
+const Z1: (u32, u32) = (65536, 65535); // ISIZE 65536 and BSIZE 0xfffe
+const W: (u32, u32) = (65506, 0); // one byte more than a stored member can hold: deflated, small
+
+fn sized(members: &[(u32, u32)], eofs: u8, class: &str, cseed: u64) -> LayoutSpec {
+    LayoutSpec::Sized { members: members.to_vec(), eofs, class: class.to_string(), cseed }
+}
+
+fn sized_layouts() -> Vec<LayoutSpec> {
+    let s = |n: u32| (n, 0u32);
+    vec![
+        // first / only
+        sized(&[X], 0, "dna", 201),
+        sized(&[X], 1, "dna", 201),
+        sized(&[X, s(5), s(0), s(7)], 1, "text", 202),
+        sized(&[Z, s(4), s(0), s(9)], 0, "dna", 203),
+        sized(&[Z], 1, "qualities", 204),
+        // middle, followed by small and empty members
+        sized(&[s(5), s(0), X, s(0), s(3), Y], 0, "dna", 205),
+        sized(&[s(7), Z, Z1, s(2)], 1, "two_symbols", 206),
+        sized(&[s(1), Y, s(0), s(0), s(1), X, s(1)], 2, "text", 207),
+        // last, with and without EOF marker
+        sized(&[s(3), X], 0, "dna", 208),
+        sized(&[s(3), X], 1, "dna", 208),
+        sized(&[s(2), Z], 0, "text", 209),
+        sized(&[s(2), Z1], 1, "text", 209),
+        // several in a row
+        sized(&[X, X, Y, Z, s(10)], 1, "dna", 210),
+        sized(&[W, X, W], 1, "dna", 211),
+        // BSIZE 0x00ff/0x0100, 0x7fff/0x8000, 0xfffe/0xffff in one file, both orders
+        sized(&[(225, 256), (226, 257), (32737, 32768), (32738, 32769), Y, X, s(10)], 1, "dna", 212),
+        sized(&[s(10), X, Y, (32738, 32769), (32737, 32768), (226, 257), (225, 256)], 0, "text", 213),
+        sized(&[(225, 256), s(0), (226, 257), s(0), (225, 256)], 1, "qualities", 214),
+    ]
+}
+
 const GZI_VARIANTS: [&str; 3] = ["full", "no-trailing", "full-roundtrip"];
 
 fn gen_cases(ctx: &Ctx) -> Vec<Case> {
@@ -784,6 +853,22 @@ fn gen_cases(ctx: &Ctx) -> Vec<Case> {
         for (j, flavor) in [Flavor::Plain, Flavor::Indexed, Flavor::Mt, Flavor::Plain].iter().enumerate() {
             cases.push(Case::Hist { name: "corpus", layout: l.clone(), flavor: *flavor, gzi: GZI_VARIANTS[(i + j) % 3], nops: 120, hseed: 1000 + (i * 4 + j) as u64, script: None });
         }
+    }
+    // (b') members at the BSIZE width boundaries: every reader flavour x gzi variant, two histories each
+    for (i, l) in sized_layouts().iter().enumerate() {
+        for (j, flavor) in [Flavor::Plain, Flavor::Indexed, Flavor::Mt, Flavor::Plain, Flavor::Mt, Flavor::Indexed].iter().enumerate() {
+            cases.push(Case::Hist { name: "bsize-boundary", layout: l.clone(), flavor: *flavor, gzi: GZI_VARIANTS[(i + j) % 3], nops: 150, hseed: 3000 + (i * 6 + j) as u64, script: None });
+        }
+        // sequential pass with positions sampled after every operation, then the boundary seeks
+        cases.push(Case::Hist {
+            name: "bsize-boundary:sequential",
+            layout: l.clone(),
+            flavor: if i % 2 == 0 { Flavor::Plain } else { Flavor::Mt },
+            gzi: "full",
+            nops: 6,
+            hseed: 0,
+            script: Some(vec![SOp::ReadAll(70000), SOp::SeekFlat(0), SOp::ReadAll(4096), SOp::SeekFlat(65505), SOp::Fill(1), SOp::ReadAll(65536)]),
+        });
     }
     // (c) seeded random histories
     let n = ctx.budget("hist", 3600, 100_000);
@@ -823,6 +908,14 @@ fn gen_cases(ctx: &Ctx) -> Vec<Case> {
             }
         }
     });
+    flush(&mut batch, &mut cases, &mut k, 300);
+    // members at the BSIZE width boundaries, sought by all five reader disciplines
+    for l in sized_layouts() {
+        batch.push(l);
+        if batch.len() >= 2 {
+            flush(&mut batch, &mut cases, &mut k, 300);
+        }
+    }
     flush(&mut batch, &mut cases, &mut k, 300);
     // small blocks: every byte boundary of every layout over DENSE_LENS up to 4 (quick) / 5 blocks
     enumerate(&DENSE_LENS, if thorough { 5 } else { 4 }, &mut |lens| {
@@ -975,7 +1068,8 @@ fn main() {
     let ctx = vcore::cases::replay_request(&ctx).map(|r| r.1).unwrap_or(ctx);
     let mut rep = Report::new(
         "case kinds: hist = one block layout (harness-built stored/deflated members incl. empty, 1-byte, 65535/65536-byte blocks, \
-         0..3 EOF markers; or produced by the real writer with flushes, with/without/with two EOF markers) x reader (Reader, \
+         0..3 EOF markers; members whose total size sits at the BSIZE width boundaries 0x00ff/0x0100, 0x7fff/0x8000, 0xfffe/0xffff \
+         incl. ISIZE 65536 with BSIZE 0xffff; or produced by the real writer with flushes, with/without/with two EOF markers) x reader (Reader, \
          IndexedReader, MultithreadedReader over Cursor) x gzi variant (all blocks / without trailing empty blocks / written and \
          read back through gzi::io) x a history of 10-200 operations {read(n), read_exact(n), fill_buf+consume, seek(vpos of a byte \
          boundary by class or reported earlier by the reader), seek by uncompressed offset}; exhaust = every byte boundary of a \
@@ -1008,8 +1102,14 @@ fn main() {
         // shapes of the harness-built layouts (computed from the generated length lists)
         let mut shapes = BTreeSet::new();
         let mut add = |l: &LayoutSpec| {
-            if let LayoutSpec::Built { lens, eofs, .. } = l {
-                shapes.insert(fnv1a(format!("{lens:?}|{eofs}").as_bytes()));
+            match l {
+                LayoutSpec::Built { lens, eofs, .. } => {
+                    shapes.insert(fnv1a(format!("{lens:?}|{eofs}").as_bytes()));
+                }
+                LayoutSpec::Sized { members, eofs, .. } => {
+                    shapes.insert(fnv1a(format!("sized{members:?}|{eofs}").as_bytes()));
+                }
+                LayoutSpec::Writer { .. } => {}
             }
         };
         for c in &cases {
@@ -1048,6 +1148,13 @@ fn main() {
             ("writer_positions_sampled", 5_000),
             ("writer_positions_sought", 2_000),
             ("exhaust_layouts", 300),
+            ("histories_with_member_of_65536_bytes(BSIZE=0xffff)", 100),
+            ("histories_with_member_of_65535_bytes(BSIZE=0xfffe)", 50),
+            ("histories_with_member_of_32768_bytes(BSIZE=0x7fff)", 10),
+            ("histories_with_member_of_32769_bytes(BSIZE=0x8000)", 10),
+            ("histories_with_member_of_256_bytes(BSIZE=0x00ff)", 10),
+            ("histories_with_member_of_257_bytes(BSIZE=0x0100)", 10),
+            ("exhaust_layouts_with_member_of_65536_bytes(BSIZE=0xffff)", 10),
             ("scan_offsets", 100_000),
         ];
         for (k, need) in floors {
